@@ -8,12 +8,14 @@ What is regenerated from the snapshot on every run:
   * the initial values `Type *ty = ty_int; int counter = 0;`,
   * the primitive `Type` literals of type.c (size, align, is_unsigned), pointer_to / enum_type / struct_type literals,
     the shape of array_of,
-  * the `_Alignas` arm of declspec (pinned; the field of the operand type that `_Alignas(type-name)` reads is translated),
+  * the `_Alignas` arm of declspec (pinned; the field of the operand type that `_Alignas(type-name)` reads and the guard of the
+    diagnostic of `_Alignas(constant)` are translated),
     `mem->align = attr.align ? attr.align : mem->ty->align` in struct_members, the `var->align` assignments,
   * attribute_list's `aligned(N)` arm: pinned frame; the guard of its diagnostic (`n < 0 || n > (1 << 28) || (n & (n - 1))`, each atom
     translated, bounds evaluated) and `if (n) ty->align = n;` become `alignedAttrBad` / `alignedAttrApply`; struct_union_decl's
     order struct_type(); attribute_list; struct_members; attribute_list is pinned,
-  * struct_members' bit-field arm (pinned: `if (!is_integer(mem->ty)) error_tok(..)` before `mem->is_bitfield = true`) and the list of
+  * struct_members' bit-field arm (pinned: `if (!is_integer(mem->ty)) error_tok(..)`, `if (mem->ty->is_atomic) error_tok(..)` before
+    `mem->is_bitfield = true`) and the list of
     TypeKinds type.c `is_integer` accepts (`integerKinds`),
   * align_to (codegen.c) and align_down (parse.c) as Lean functions on Int with C's truncating division.
 Anything that does not have exactly the expected shape raises ExtractError."""
@@ -45,6 +47,33 @@ def const_expr(s, env, what):
         else:
             raise ExtractError(f'{what}: cannot evaluate {term!r} in {s!r}')
     return total
+
+def guard_to_lean(cond, what):
+    """`n < K || n > K2 || (n & (n - 1))` over `int64_t n` -> (list of Lean Bool atoms over `n : Int`, {'<': K, '>': K2}).
+    Atoms are evaluated left to right (`||` short-circuits): the bit test must come after the sign test."""
+    atoms = []
+    bounds = {}
+    for k_atom, atom in enumerate(cond.split('||')):
+        atom = atom.strip()
+        mm = re.fullmatch(r'n (<|>|<=|>=) (\(.+\)|\d+)', atom)
+        if mm:
+            v = const_expr(mm.group(2).strip('()'), {}, what + ' bound')
+            atoms.append(f'decide (n {({"<": "<", ">": ">", "<=": "≤", ">=": "≥"})[mm.group(1)]} {v})')
+            if mm.group(1) in bounds:
+                raise ExtractError(f'parse.c: {what}: two tests with {mm.group(1)}')
+            bounds[mm.group(1)] = v
+        elif atom == '(n & (n - 1))':
+            # int64_t two's complement; reached only when the earlier atoms are false
+            if k_atom == 0 or '<' not in bounds:
+                raise ExtractError(f'parse.c: {what}: `n & (n - 1)` is evaluated before the sign of n is tested')
+            atoms.append('(BitVec.ofInt 64 n &&& BitVec.ofInt 64 (n - 1)) != 0#64')
+        else:
+            raise ExtractError(f'parse.c: {what}: guard atom of unknown shape: ' + atom)
+    if set(bounds) != {'<', '>'}:
+        raise ExtractError(f'parse.c: {what}: expected one lower and one upper bound test, found: ' + cond)
+    if bounds['<'] < -2**31 or bounds['>'] >= 2**31:
+        raise ExtractError(f'parse.c: {what}: the accepted range does not fit the `int` the value is stored in')
+    return atoms, bounds
 
 def generate(repo):
     parse = strip_comments(read(repo, 'parse.c'))
@@ -92,11 +121,16 @@ def generate(repo):
         ka += 1
     arm = norm(body[ja + 1:ka])
     ma = re.fullmatch(r'if \(!attr\) error_tok\(tok, "_Alignas is not allowed in this context"\); tok = skip\(tok->next, "\("\); '
-                      r'int align; if \(is_typename\(tok\)\) align = typename\(&tok, tok\)->(\w+); '
-                      r'else align = const_expr\(&tok, tok\); attr->align = MAX\(attr->align, align\); '
+                      r'int align; if \(is_typename\(tok\)\) \{ align = typename\(&tok, tok\)->(\w+); \} '
+                      r'else \{ Token \*start = tok; int64_t n = const_expr\(&tok, tok\); if \((.+?)\) error_tok\(start, "([^"]*)"\); align = n; \} '
+                      r'attr->align = MAX\(attr->align, align\); '
                       r'tok = skip\(tok, "\)"\); continue;', arm)
     if not ma:
         raise ExtractError('declspec: the _Alignas arm has a shape the translator does not understand: ' + arm)
+    if ma.group(3) != 'alignment must be a power of two no larger than 2^28':
+        raise ExtractError('declspec: the _Alignas(constant) diagnostic changed: ' + ma.group(3))
+    as_atoms, as_bounds = guard_to_lean(ma.group(2), '_Alignas(constant)')
+    as_cond = ma.group(2)
     alignas_field = ma.group(1)
     if alignas_field != 'align':
         raise ExtractError(f'declspec: _Alignas(type-name) reads ->{alignas_field} of the operand type (C11 6.7.5p6: its alignment)')
@@ -127,32 +161,16 @@ def generate(repo):
     al_cond, al_msg = mal[0]
     if al_msg != 'alignment must be a power of two no larger than 2^28':
         raise ExtractError('parse.c: the aligned(N) diagnostic changed: ' + al_msg)
-    al_atoms = []          # Lean Bool expressions over `n : Int` (C: int64_t n; every atom is evaluated left to right, `||` short-circuits)
-    al_bounds = {}
-    for k_atom, atom in enumerate(al_cond.split('||')):
-        atom = atom.strip()
-        mm = re.fullmatch(r'n (<|>|<=|>=) (\(.+\)|\d+)', atom)
-        if mm:
-            v = const_expr(mm.group(2).strip('()'), {}, 'aligned(N) bound')
-            al_atoms.append(f'decide (n {({"<": "<", ">": ">", "<=": "≤", ">=": "≥"})[mm.group(1)]} {v})')
-            al_bounds[mm.group(1)] = v
-        elif atom == '(n & (n - 1))':
-            # int64_t two's complement; reached only when the earlier atoms are false
-            if k_atom == 0 or '<' not in al_bounds:
-                raise ExtractError('parse.c: aligned(N): `n & (n - 1)` is evaluated before the sign of n is tested')
-            al_atoms.append('(BitVec.ofInt 64 n &&& BitVec.ofInt 64 (n - 1)) != 0#64')
-        else:
-            raise ExtractError('parse.c: aligned(N): guard atom of unknown shape: ' + atom)
-    if set(al_bounds) != {'<', '>'}:
-        raise ExtractError('parse.c: aligned(N): expected one lower and one upper bound test, found: ' + al_cond)
+    al_atoms, al_bounds = guard_to_lean(al_cond, 'aligned(N)')
     # struct_members: a bit-field must have an integer type (the guard sits between `mem->align = ..` and `mem->is_bitfield = true`)
     sm_body = norm(function_body(parse, r'^static\s+void\s+struct_members\s*\(\s*Token\s*\*\*\s*rest\s*,\s*Token\s*\*\s*tok\s*,\s*Type\s*\*\s*ty\s*\)\s*\{', 'struct_members'))
     mbf = re.findall(r'mem->ty = declarator\(&tok, tok, basety\); .*?mem->align = attr\.align \? attr\.align : mem->ty->align; '
-                     r'if \(equal\(tok, ":"\)\) \{ if \(!(\w+)\(mem->ty\)\) error_tok\(tok, "([^"]*)"\); mem->is_bitfield = true; '
+                     r'if \(equal\(tok, ":"\)\) \{ if \(!(\w+)\(mem->ty\)\) error_tok\(tok, "([^"]*)"\); '
+                     r'if \(mem->ty->is_atomic\) error_tok\(tok, "([^"]*)"\); mem->is_bitfield = true; '
                      r'mem->bit_width = const_expr\(&tok, tok->next\); \} cur = cur->next = mem;', sm_body)
     if len(mbf) != 1 or len(re.findall(r'is_bitfield\s*=', sm_body)) != 1:
         raise ExtractError('parse.c: struct_members: the bit-field arm changed')
-    if mbf[0] != ('is_integer', 'bit-field has non-integer type'):
+    if mbf[0] != ('is_integer', 'bit-field has non-integer type', 'bit-field has atomic type'):
         raise ExtractError('parse.c: struct_members: the guard of the bit-field arm changed: ' + repr(mbf[0]))
     isint = norm(function_body(typec, r'^bool\s+is_integer\s*\(\s*Type\s*\*\s*ty\s*\)\s*\{', 'is_integer'))
     mi = re.fullmatch(r'TypeKind k = ty->kind; return ((?:k == TY_\w+(?: \|\| )?)+);', isint)
@@ -325,7 +343,10 @@ def generate(repo):
     o += 'def alignasOfType (tySize tyAlign : Int) : Int := %s\n\n' % ('tyAlign' if alignas_field == 'align' else 'tySize')
     o += '/-- declspec, several specifiers: attr->align = MAX(attr->align, align), chibicc.h `#define MAX(x, y) ((x) < (y) ? (y) : (x))` -/\n'
     o += 'def alignasCombine (cur new : Int) : Int := if cur < new then new else cur\n\n'
-    o += '/-- declspec, `_Alignas(constant-expression)`: attr->align = const_expr(&tok, tok) -/\n'
+    o += '/-- declspec, `_Alignas(constant-expression)` with `int64_t n = const_expr(..)`: the guard of\n'
+    o += '    `error_tok(start, "%s")`:\n    `%s` -/\n' % (ma.group(3), as_cond)
+    o += 'def alignasConstBad (n : Int) : Bool :=\n  ' + ' || '.join(as_atoms) + '\n\n'
+    o += '/-- declspec, `_Alignas(constant-expression)` after the guard: `align = n;` -/\n'
     o += 'def alignasOfConst (v : Int) : Int := v\n\n'
     o += '/-- struct_members (both sites): mem->align = attr.align ? attr.align : mem->ty->align -/\n'
     o += 'def memberAlign (attrAlign tyAlign : Int) : Int := if attrAlign ≠ 0 then attrAlign else tyAlign\n\n'
@@ -338,6 +359,10 @@ def generate(repo):
     o += 'def alignedAttrApply (cur n : Int) : Int := if n ≠ 0 then n else cur\n\n'
     o += '/-- type.c `is_integer`: the kinds it accepts; struct_members: `if (!is_integer(mem->ty)) error_tok(tok, "%s")` in the bit-field arm -/\n' % mbf[0][1]
     o += 'def integerKinds : List String := [' + ', '.join(f'"{k}"' for k in integer_kinds) + ']\n\n'
+    o += '/-- struct_members, bit-field arm, second guard: `if (mem->ty->is_atomic) error_tok(tok, "%s")`.\n' % mbf[0][2]
+    o += '    The model has no `_Atomic`-qualified types (every `Ty` is non-atomic), so the guard never fires on a modelled\n'
+    o += '    declaration; it is pinned here and exercised by the check directly against gcc. -/\n'
+    o += 'def bitfieldAtomicMsg : String := "%s"\n\n' % mbf[0][2]
     o += '/-- codegen.c `align_to`: (n + align - 1) / align * align  (C `int`, `/` truncates; division by zero is the caller\'s problem) -/\n'
     o += 'def alignTo (n align : Int) : Int := Int.tdiv (n + align - 1) align * align\n\n'
     o += '/-- parse.c `align_down`: align_to(n - align + 1, align) -/\n'
